@@ -65,6 +65,10 @@ static void run_approx(Maximisers & M, int call, const F::Action & A, const Rule
     {
         auto [a, v] = M.mp(A, g);
         Line l; l << "C13" << "mp" << call; l.nats(A); putRules(l, rules); l << "|"; l.nats(a) << v; l.emit();
+        // the same call with everything the message-passing model needs: iteration count and the graph's node order
+        Line m; m << "C13" << "mpfull" << call << (size_t)M.mp.getIterations() << (size_t)g.factorSize();
+        for (auto f = g.begin(); f != g.end(); ++f) m.nats(f->getVariables());
+        m.nats(A); putRules(m, rules); m << "|"; m.nats(a) << v; m.emit();
     }
     {
         auto [a, v] = M.rils(A, g);
@@ -289,11 +293,39 @@ static void random_case(Rng & rng, bool thorough) {
     }
 }
 
-long verif::verif_ncases(const std::string & tier) { return kFixed + (tier == "thorough" ? 20000 : 2500); }
+// UCVE stress: ONE connected component, FULLY specified tables (the territory of `ucve_pruning_sound_partial` and
+// `ucve_final_partial`): a random tree/chain plus a few chords over 4..6 agents with 2..3 actions, so that the
+// elimination cross-sums multi-entry factors and the bound-based pruning actually runs.  Any failure here has the kind
+// not_maximal_single_component, which is NOT a recorded finding.
+static void ucve_stress_case(Rng & rng, bool thorough) {
+    size_t n = (size_t)rng.range(4, thorough ? 7 : 6);
+    F::Action A(n);
+    for (auto & a : A) a = (size_t)rng.range(2, 3);
+    std::set<F::PartialKeys> seen;
+    std::vector<F::PartialKeys> keysets;
+    auto add = [&](F::PartialKeys k) { std::sort(k.begin(), k.end()); if (k[0] != k[1] && !seen.count(k)) { seen.insert(k); keysets.push_back(k); } };
+    for (size_t i = 1; i < n; ++i) add({rng.below(i), i});              // spanning tree: one component
+    for (int c = (int)rng.range(0, 3); c > 0; --c) add({rng.below(n), rng.below(n)});   // chords: wider eliminations
+    FB::UCVE::Factor rules;
+    for (auto & k : keysets) {
+        size_t sp = F::factorSpacePartial(k, A);
+        for (size_t id = 0; id < sp; ++id)
+            rules.push_back(ue({k, F::toFactorsPartial(k, A, id)}, (double)rng.range(0, 16) / 16.0, (double)rng.range(1, 16) / 32.0));
+    }
+    Maximisers M(1, 0.0, 0.0, 0, true);
+    static const double logs[] = {0.5, 1.0, 2.0, 4.0, 8.0, 12.5};
+    stat("ucve_stress"); stat("ucve_stress_agents", (long)n); stat("ucve_stress_factors", (long)keysets.size());
+    run_ucve(M, 0, A, logs[rng.below(6)], rules);
+}
+
+static long nStress(const std::string & tier) { return tier == "thorough" ? 6000 : 1500; }
+static long nRandom(const std::string & tier) { return tier == "thorough" ? 20000 : 2500; }
+long verif::verif_ncases(const std::string & tier) { return kFixed + nRandom(tier) + nStress(tier); }
 
 void verif::verif_case(Rng & rng, long idx, const std::string & tier) {
     if (idx < kFixed) { fixed_case(idx); return; }
-    random_case(rng, tier == "thorough");
+    if (idx < kFixed + nRandom(tier)) { random_case(rng, tier == "thorough"); return; }
+    ucve_stress_case(rng, tier == "thorough");
 }
 
 VERIF_MAIN
